@@ -8,7 +8,7 @@ RULE = (
     "case = (regular-expression AST of depth <= 4 over literals, classes, negated classes, ranges, dot, \\d\\w\\s\\D\\W\\S, "
     "alternation, * + ? {m,n}, groups, escaped metacharacters and (?i:...) literals; character set of 4-12 characters from "
     "printable ASCII incl. newline, optionally plus non-alphanumeric symbols or - for (?i:) - cased non-ASCII letters with "
-    "multi-character case mappings). interegular_to_wfsa(pattern, charset)(s) > 0 for every string over the charset up to "
+    "multi-character case mappings; plus a second pattern starting with a dot / negated class that is compiled with the SAME charset set object). interegular_to_wfsa(pattern, charset)(s) > 0 for every string over the charset up to "
     "the bound is compared with re.fullmatch, after re.fullmatch and a direct set-based matcher over the AST (negated "
     "classes and dot relative to the charset) agreed on that string; every state's outgoing + final mass must be 1 and "
     "every arc label a single character. evaluations = (pattern, string) and per-state decisions; "
@@ -35,7 +35,7 @@ def gates(tier):
         "min_decided": {APIS[0]: 30000 * k, APIS[1]: 1500 * k},
         "shapes": {c: 5 * k for c in ["node:cls", "node:negcls", "node:dot", "node:sh", "node:alt", "node:rep", "node:ci", "node:range",
                                       "node:bounded", "charset:symbols", "charset:cased", "charset:newline", "ci:multichar-case-mapping",
-                                      "escaped-metachar"]},
+                                      "escaped-metachar", "second-pattern-same-charset-object"]},
         "min_hashseeds": 2,
     }
 
@@ -97,7 +97,11 @@ def gen_case(rng, spec):
         return ["grp", node(d - 1)]
 
     ast = node(rng.randint(1, 4))
-    return {"ast": ast, "charset": cs, "maxlen": 3 if spec.get("tier") == "quick" else 4}
+    # a second pattern compiled with the SAME charset object (as LarkStuff does for every terminal of a grammar)
+    ast2 = ["cat", [rng.choice([["dot"], cls()]), node(rng.randint(0, 2))]]
+    if ast2[1][0][0] == "cls":
+        ast2[1][0][2] = True
+    return {"ast": ast, "ast2": ast2, "charset": cs, "maxlen": 3 if spec.get("tier") == "quick" else 4}
 
 
 def features(n, acc):
@@ -127,6 +131,14 @@ def features(n, acc):
 
 
 def run_case(case, ctx):
+    shared = set(case["charset"])  # one set object for all patterns of the case
+    run_pattern(case, ctx, case["ast"], shared, first=True)
+    if case.get("ast2") is not None:
+        ctx.shape["second-pattern-same-charset-object"] += 1
+        run_pattern(case, ctx, case["ast2"], shared, first=False)
+
+
+def run_pattern(case, ctx, ast, shared, first):
     import re
     import warnings
 
@@ -135,7 +147,7 @@ def run_case(case, ctx):
     from rv import codec
     from rv.ref import regexref
 
-    ast, cs = case["ast"], case["charset"]
+    cs = case["charset"]
     pattern = regexref.render(ast)
     feats = set()
     features(ast, feats)
@@ -164,14 +176,14 @@ def run_case(case, ctx):
             return
         want[s] = a
     acc = sum(want.values())
-    fp = codec.fingerprint(case)
+    fp = codec.fingerprint([case, first])
     nontriv = bool({"node:negcls", "node:dot", "node:sh", "node:ci"} & feats) and 0 < acc < len(strings)
     ctx.case(fp, nontriv, sorted(feats))
     ctx.sample({"pattern": pattern, "charset": cs, "strings": len(strings), "accepted": acc})
-    c0 = dict(case, pattern=pattern)
+    c0 = dict(case, pattern=pattern, which="first" if first else "second (same charset object)")
     with warnings.catch_warnings():
         warnings.simplefilter("ignore")
-        ok, m = ctx.call(APIS[0], c0, interegular_to_wfsa, pattern, charset=set(cs))
+        ok, m = ctx.call(APIS[0], c0, interegular_to_wfsa, pattern, charset=shared)
     if not ok:
         return
     for s in strings:
